@@ -1,5 +1,5 @@
 //! C17 — keyring parsing: complete, unambiguous entries; checksummed keys; no crashes (E-GRID).
-use crate::keyring::{EncodedPk, EncodedSk, Keyring};
+use crate::kra;
 use crate::refspec as r;
 use crate::report::{Report, Tier};
 use crate::util::*;
@@ -133,26 +133,20 @@ struct Obs {
 }
 
 fn observe(text: &str, names: &[&str], pks: &[&str]) -> Result<Obs, String> {
-    guarded(|| match Keyring::new(text) {
+    guarded(|| match kra::parse(text) {
         Err(_) => Obs { accepted: false, by_name: vec![], by_key: vec![] },
         Ok(kr) => {
-            let by_name = names
-                .iter()
-                .map(|n| kr.get_key(n).map(|k| Entry { name: k.name.clone(), pk: k.public_key.as_str().to_string(), sk: k.private_key.as_ref().map(|s| s.as_str().to_string()) }))
-                .collect();
-            let by_key = pks
-                .iter()
-                .map(|p| match EncodedPk::try_from(*p) {
-                    Ok(e) => kr.get_name_from_key(&e),
-                    Err(_) => None,
-                })
-                .collect();
+            let by_name = names.iter().map(|n| kr.get_key(n).map(|k| Entry { name: k.name, pk: k.pk, sk: k.sk })).collect();
+            let by_key = pks.iter().map(|p| kr.name_from_pk(p)).collect();
             Obs { accepted: true, by_name, by_key }
         }
     })
 }
 
 pub fn judge(rep: &Report, text: &str, names: &[&str], pks: &[&str]) -> bool {
+    if !kra::AVAILABLE {
+        return true; // in-process seam unavailable: see cli_lookup and the other CLI-level parts
+    }
     let case = || json!({"kind":"text","text":text});
     let obs = match observe(text, names, pks) {
         Ok(o) => o,
@@ -279,26 +273,24 @@ fn roundtrip(rep: &Report, name: &str, pk: &str, sk: &str, other: Option<(&str, 
     rep.eval(1);
     // what `key generate` does: trim, validate, serialize
     let name = name.trim();
-    if !Keyring::valid_key_name(name) {
+    if !kra::AVAILABLE || !kra::valid_key_name(name) {
         return;
     }
     let case = json!({"kind":"roundtrip","name":name,"pk":pk,"sk":sk,"other":other.map(|o| json!([o.0,o.1,o.2]))});
     let r1 = guarded(|| {
-        let epk = EncodedPk::try_from(pk).unwrap();
-        let esk = EncodedSk::try_from(sk).unwrap();
-        let mut text = Keyring::serialize_key(name, &epk, &esk);
+        let mut text = kra::serialize_key(name, pk, sk);
         if let Some((on, opk, osk)) = other {
             text.push('\n');
-            text.push_str(&Keyring::serialize_key(on, &EncodedPk::try_from(opk).unwrap(), &EncodedSk::try_from(osk).unwrap()));
+            text.push_str(&kra::serialize_key(on, opk, osk));
         }
-        match Keyring::new(&text) {
+        match kra::parse(&text) {
             Err(e) => Err(format!("keyring written by the tool for name {:?} does not parse: {}", name, e)),
             Ok(kr) => match kr.get_key(name) {
                 None => Err(format!("name {:?} written by the tool is not found after parsing", name)),
                 Some(k) => {
-                    if k.name != name || k.public_key.as_str() != pk || k.private_key.as_ref().map(|s| s.as_str().to_string()).as_deref() != Some(sk) {
+                    if k.name != name || k.pk != pk || k.sk.as_deref() != Some(sk) {
                         Err(format!("entry read back for {:?} differs from what was written (name {:?})", name, k.name))
-                    } else if kr.get_name_from_key(&EncodedPk::try_from(pk).unwrap()).as_deref() != Some(name) {
+                    } else if kr.name_from_pk(pk).as_deref() != Some(name) {
                         Err(format!("lookup by public key does not return {:?}", name))
                     } else {
                         Ok(())
@@ -317,10 +309,10 @@ fn roundtrip(rep: &Report, name: &str, pk: &str, sk: &str, other: Option<(&str, 
 fn pubkey_case(rep: &Report, s: &str) {
     rep.eval(1);
     let want = r::decode_pk(s);
-    let got = guarded(|| match EncodedPk::try_from(s) {
-        Ok(e) => Keyring::decode_public_key(&e).ok().map(|k| k.as_bytes().to_vec()),
-        Err(_) => None,
-    });
+    if !kra::AVAILABLE {
+        return;
+    }
+    let got = guarded(|| kra::decode_pk(s));
     let case = json!({"kind":"pubkey","s":s});
     match got {
         Err(m) => rep.violation("pubkey/panic", case, format!("panic decoding {:?}: {}", s, m)),
@@ -348,11 +340,105 @@ fn pubkey_case(rep: &Report, s: &str) {
     }
 }
 
+/// CLI level, the public interface only: for every sequence of <= 2 (quick) / 3 (thorough) complete sections over the
+/// 12-section alphabet, followed by the recipient's own section, `kestrel decrypt` of a message from each of three
+/// senders must (a) refuse a keyring that REF classifies as bad, (b) for a well-formed one succeed and name the sender
+/// exactly as REF's reading of the file says (encoded-key equality: a bad-checksum copy of a key is a different key,
+/// names are case-sensitive), or report an unknown key when no section carries the sender's encoded key.
+fn cli_lookup(rep: &Report, al: &Alpha) {
+    use crate::fx::Party;
+    use crate::proc::{self, Cmd, Scratch};
+    let seed = rep.seed;
+    let ids = idents(seed);
+    let rc = Party::new(seed, "rcpt", "rcpt-pw");
+    let body = b"lookup message".to_vec();
+    let files: Vec<Vec<u8>> = (0..3).map(|i| r::write_key_file(&ids[i].sk, &rc.pk, &derive32(seed, &format!("c17-e-{}", i)), &derive32(seed, &format!("c17-p-{}", i)), &body, &[body.len()]).unwrap()).collect();
+    let spk: Vec<String> = (0..3).map(|i| r::encode_pk(&ids[i].pk)).collect();
+    let (k1, k2, k1bad) = (&al.pks[0], &al.pks[1], &al.pks[2]);
+    let k3 = spk[2].clone();
+    let k3bad = {
+        let mut b = r::b64_decode(&k3).unwrap();
+        b[33] ^= 0x40;
+        r::b64(&b)
+    };
+    let sk = al.tokens[8].clone();
+    let mut secs: Vec<String> = vec![];
+    for (n, k) in [("a", k1), ("a", k2), ("b", k1), ("b", k2), ("c", &k3), ("A", &k3), ("a", k1bad), ("c", k1bad), ("m", &k3bad)] {
+        secs.push(format!("[Key]\nName = {}\nPublicKey = {}\n", n, k));
+    }
+    secs.push(format!("[Key]\nName = b\nPublicKey = {}\n{}\n", k2, sk));
+    secs.push(format!("[Key]\nPublicKey = {}\nName = c\n# comment\n", k3));
+    secs.push("[Key]\nName = d\n".to_string());
+    let n = secs.len();
+    let depth = rep.tier.pick(2usize, 3);
+    let mut seqs: Vec<Vec<usize>> = vec![vec![]];
+    let mut frontier: Vec<Vec<usize>> = vec![vec![]];
+    for _ in 0..depth {
+        let mut next = vec![];
+        for s0 in &frontier {
+            for k in 0..n {
+                let mut s1 = s0.clone();
+                s1.push(k);
+                next.push(s1);
+            }
+        }
+        seqs.extend(next.iter().cloned());
+        frontier = next;
+    }
+    let runs = AtomicU64::new(0);
+    seqs.par_iter().for_each(|sq| {
+        let mut parts: Vec<String> = sq.iter().map(|&i| secs[i].clone()).collect();
+        parts.push(rc.entry(true));
+        let text = parts.join("\n");
+        let class = classify(&text);
+        let senders: Vec<usize> = if matches!(class, Class::WellFormed(_)) { vec![0, 1, 2] } else { vec![0] };
+        for si in senders {
+            rep.eval(1);
+            runs.fetch_add(1, Ordering::Relaxed);
+            let sc = Scratch::new();
+            sc.write("kr.txt", text.as_bytes());
+            sc.write("m.ktl", &files[si]);
+            let out = proc::run(&Cmd::new(&["decrypt", "m.ktl", "-t", "rcpt", "-k", "kr.txt", "-o", "out.bin", "--env-pass"]).env("KESTREL_PASSWORD", "rcpt-pw"), &sc.0);
+            let case = json!({"kind":"cli-lookup","sections":sq,"sender":si,"text":text});
+            if let Err(e) = out.well_behaved() {
+                rep.violation("cli-lookup/ill-behaved", case, format!("kestrel decrypt with keyring {:?}: {}", text, e));
+                continue;
+            }
+            let named: Option<String> = out.stderr.lines().find_map(|l| l.split_once("File from: ").map(|x| x.1.to_string()));
+            let unknown = out.stderr.contains("unknown key");
+            match &class {
+                Class::Open => {}
+                Class::Bad(why) => {
+                    if out.ok() {
+                        rep.violation(&format!("cli-lookup/accepted-bad:{}", why), case, format!("kestrel decrypt works with a keyring although {}: {:?}", why, text));
+                    }
+                }
+                Class::WellFormed(entries) => {
+                    rep.nontrivial(format!("cli-lookup-{:?}-{}", sq, si).as_bytes());
+                    let want = entries.iter().find(|e| e.pk == spk[si]).map(|e| e.name.clone());
+                    if !out.ok() || sc.read("out.bin").as_deref() != Some(&body[..]) {
+                        rep.violation("cli-lookup/rejected-well-formed", case, format!("kestrel decrypt fails with a well-formed keyring {:?}: {}", text, out.summary()));
+                    } else if named != want || (want.is_none() && !unknown) {
+                        rep.violation(
+                            "cli-lookup/by-key",
+                            case,
+                            format!("kestrel decrypt reports the sender as {:?}{}; the keyring file says {:?} for the sender's encoded key {} (keyring {:?})", named, if unknown { " (unknown key)" } else { "" }, want, spk[si], text),
+                        );
+                    }
+                }
+            }
+        }
+    });
+    rep.extra("cli_lookup", json!({"sections":n,"max_sections":depth,"keyrings":seqs.len(),"decrypt_runs":runs.load(Ordering::Relaxed)}));
+}
+
 pub fn run(rep: &'static Report) {
     let seed = rep.seed;
+    kra::note(rep);
     rep.set_rule("E-GRID: every sequence of <= 6 (quick) / 7 (thorough) lines over a 15-token alphabet (with/without final newline), every sequence of <= 4 lines over a reduced alphabet with line decorations, the serialize->parse round trip for every name of <= 3 characters over a 9-character alphabet and boundary lengths, and every single-character substitution / checksum perturbation of encoded public keys; each text is parsed by the real parser and compared with REF's reading. distinct non-trivial = texts that REF classifies as well-formed or as unambiguously bad (the others only check 'no crash') + round-trip names + key strings");
     rep.assume("the statement gives necessary conditions for acceptance: texts using constructs it leaves open (duplicate fields in a section, fields outside a section, junk lines, no section) are only checked for 'no crash'");
     let al = alphabet(seed);
+    rep.mute(!kra::AVAILABLE); // in-process parts count nothing when the seam is unavailable
     let counter = AtomicU64::new(0);
     let wf = AtomicU64::new(0);
     let bad = AtomicU64::new(0);
@@ -420,6 +506,9 @@ pub fn run(rep: &'static Report) {
         });
         rep.extra("section_sequences", json!({"sections":n,"max_sections":depth,"texts":seqs.len()}));
     }
+    rep.mute(false);
+    cli_lookup(rep, &al);
+    rep.mute(!kra::AVAILABLE);
     // single-line shape grid: every byte length 0..140 of ASCII followed by multi-byte characters, in every line role
     // (a slice or limit at any byte offset of a line is exercised on and off a character boundary)
     let pks: Vec<&str> = al.pks.iter().map(|s| s.as_str()).collect();
@@ -510,6 +599,7 @@ pub fn run(rep: &'static Report) {
     rep.extra("roundtrip_names", json!(names.len()));
     rep.sample(json!({"kind":"roundtrip","name":"a=\u{e9}","expect":"serialize_key -> Keyring::new -> get_key returns the same name and keys"}));
 
+    rep.mute(false);
     // CLI level: what `kestrel key generate` writes for a typed name must read back under exactly the written name
     {
         use crate::proc::{self, Cmd, Scratch};
@@ -534,7 +624,14 @@ pub fn run(rep: &'static Report) {
                 if written.len() != 1 {
                     return Err(format!("expected one Name line, file is {:?}", text));
                 }
-                match guarded(|| Keyring::new(&text).map(|k| k.get_key(written[0]).map(|e| e.name.clone()))) {
+                if !kra::AVAILABLE {
+                    // REF's reading of the file the tool wrote
+                    return match classify(&text) {
+                        Class::WellFormed(es) if es.iter().any(|e| e.name == written[0]) => Ok(()),
+                        other => Err(format!("typed {:?}: the tool wrote the name {:?} but REF reads the file as {:?}", t, written[0], other)),
+                    };
+                }
+                match guarded(|| kra::parse(&text).map(|k| k.get_key(written[0]).map(|e| e.name.clone()))) {
                     Ok(Ok(Some(n))) if n == written[0] => Ok(()),
                     Ok(Ok(other)) => Err(format!("typed {:?}: the tool wrote the name {:?} but the keyring reads back {:?} under that name (names are not read back as written)", t, written[0], other)),
                     Ok(Err(e)) => Err(format!("typed {:?}: the keyring the tool wrote does not parse: {}", t, e)),
@@ -550,6 +647,7 @@ pub fn run(rep: &'static Report) {
         rep.extra("cli_generated_names", json!(typed.len()));
     }
 
+    rep.mute(!kra::AVAILABLE);
     // public keys: checksum perturbations and single-character substitutions
     let mut strs: Vec<String> = vec![];
     for id in ids.iter().take(3) {
@@ -603,6 +701,7 @@ pub fn run(rep: &'static Report) {
         rep.nontrivial(format!("pk-{}", s).as_bytes());
     });
     rep.extra("public_key_strings", json!(strs.len()));
+    rep.mute(false);
     rep.set_exhaustive(true);
     let _ = Tier::Quick;
 }
@@ -622,6 +721,10 @@ pub fn replay(rep: &'static Report, case: &Value) {
             roundtrip(rep, case["name"].as_str().unwrap(), case["pk"].as_str().unwrap(), case["sk"].as_str().unwrap(), other);
         }
         "pubkey" => pubkey_case(rep, case["s"].as_str().unwrap()),
+        "cli-lookup" => {
+            println!("  re-running the CLI lookup part of C17");
+            cli_lookup(rep, &al);
+        }
         "cli-name" => {
             println!("  re-running C17 (CLI name cases are part of it)");
             run(rep);
